@@ -1261,7 +1261,39 @@ def register_builtins(L):
                                                        z3.ForAll([j], z3.Implies(z3.And(0 <= j, j < m), ge(rv, jv))),
                                                        z3.ForAll([j], z3.Implies(z3.And(0 <= j, j < f(i)), gt(rv, jv)))))))
             return st.alloc(ArrData((a.shape[0],), lambda r: f(r), "i"))
+        if a.ndim == 2 and axis is None:
+            # index into the flattened (row-major) array: flat = r * m + c with (r, c) the lexicographically first extremal position
+            _used(E, f"np.{name} of a 2-D array without axis (row-major flat index of the first extremal entry)")
+            r, c, flat = fresh("amax_row", I), fresh("amax_col", I), fresh("amax_flat", I)
+            i, j = z3.Ints("ai aj")
+            n, m = to_int(a.shape[0]), to_int(a.shape[1])
+            rv = to_real(a.sel(r, c))[1]
+            jv = to_real(a.sel(i, j))[1]
+            inr = z3.And(0 <= i, i < n, 0 <= j, j < m)
+            st.assume(z3.Implies(z3.And(n >= 1, m >= 1), z3.And(
+                0 <= r, r < n, 0 <= c, c < m, flat == r * m + c, flat >= 0, flat < n * m,
+                z3.ForAll([i, j], z3.Implies(inr, ge(rv, jv))),
+                z3.ForAll([i, j], z3.Implies(z3.And(inr, z3.Or(i < r, z3.And(i == r, j < c))), gt(rv, jv))))))
+            if not hasattr(E, "flat_index"):
+                E.flat_index = {}
+            E.flat_index[flat.get_id()] = (r, c, a.shape)
+            return flat
         return Opaque(name)
+
+    @fn("np.unravel_index")
+    def _np_unravel(E, st, args, kw, node):
+        """np.unravel_index(flat, shape) for a flat index produced by argmax/argmin over an array of that very shape: its (row, column)"""
+        v = args[0]
+        rec = getattr(E, "flat_index", {}).get(v.get_id()) if is_z3(v) else None
+        shape = args[1] if len(args) > 1 else kw.get("shape")
+        if rec is None or not isinstance(shape, tuple) or len(shape) != 2 or kw.get("order", "C") != "C":
+            return _np_pure(E, st, args, kw, node)
+        r, c, shp = rec
+        same = z3.And(to_int(shape[0]) == to_int(shp[0]), to_int(shape[1]) == to_int(shp[1]))
+        if not z3.is_true(z3.simplify(same)):
+            return _np_pure(E, st, args, kw, node)
+        _used(E, "np.unravel_index (inverse of the row-major flat index)")
+        return (r, c)
 
     @fn("np.column_stack")
     def _np_column_stack(E, st, args, kw, node):
